@@ -408,9 +408,23 @@ Definition do_cpd (b : bn) (c : cpd) (state : name) : cpd :=
 (* virtual evidence on x with values q: new binary child nv of x, column k = (q_k, 1 - q_k) *)
 Definition virt_cpd (nv x : var) (q : list Qc) : cpd :=
   {| cvar := nv; cpars := [x]; cvals := q ++ map (fun y => 1 - y) q |}.
-Definition simulate_bn (b : bn) (nodes' : list var) (dos : list (var * name)) (virt : list (var * var * list Qc)) : bn :=
+Fixpoint chunks {A} (n k : nat) (l : list A) : list (list A) :=      (* k chunks of length n *)
+  match k with O => [] | S k' => firstn n l :: chunks n k' (skipn n l) end.
+(* virtual (soft) intervention: model.do(node) only -> cpd.marginalize(parents): sum over the parent
+   configurations, then normalize(); the soft-intervention CPD then acts as virtual evidence *)
+Definition marg_cpd (b : bn) (c : cpd) : cpd :=
+  let pc := prod (map (cardf b) (cpars c)) in
+  let m := map qsum (chunks pc (cardf b (cvar c)) (cvals c)) in
+  {| cvar := cvar c; cpars := []; cvals := match normalise m with Some w => w | None => m end |}.
+(* dos: hard interventions (point mass); margs: variables of virtual_intervention (marginalised CPD);
+   virt: virtual_evidence ++ virtual_intervention, each adds a binary child *)
+Definition simulate_bn (b : bn) (nodes' : list var) (dos : list (var * name)) (margs : list var)
+           (virt : list (var * var * list Qc)) : bn :=
   {| bnodes := nodes';
-     bcpds := map (fun c => match assoc dos (cvar c) with Some st => do_cpd b c st | None => c end) (bcpds b)
+     bcpds := map (fun c => match assoc dos (cvar c) with
+                            | Some st => do_cpd b c st
+                            | None => if memv' (cvar c) margs then marg_cpd b c else c
+                            end) (bcpds b)
               ++ map (fun t => virt_cpd (fst (fst t)) (snd (fst t)) (snd t)) virt;
      blat := blat b;
      bcard := bcard b ++ map (fun t => (fst (fst t), 2%nat)) virt;
